@@ -10,6 +10,7 @@ from props.C03 import PV, PUT, param_seeds
 from props.C04 import call_results, agg_field_operands, TRK, per_element_key_check
 
 META = {
+    "explanation_r6": 'Also (round 6): each component (key, content) of every `outputs` element reaches the signed bytes of a transaction by a value-carrying flow (not only through len / reserve).',
     "explanation_more": "Also (round 5): once a verified transaction for the key exists, Ok is answered only behind put_local_record of the union, except when nothing verified or everything delivered is already held (C07.tx.stored).",
     "explanation": "Decides: (1) in validate_and_store_scratchpad_record the store is cut by content-derived key == presented key, by "
                    "`new.count() > local.count()` (strict) whenever a local copy exists, and by scratchpad.is_valid(); is_valid verifies counter "
